@@ -67,6 +67,20 @@ def check_build_visitor(path: Path) -> None:
 ALIAS_FIELDS = {("TypeApplication", "expr"), ("ClassDef", "metaclass")}
 
 
+class SpecModel:
+    """The mypy half alone (syntactic children per node class as mypy's own traverser visits
+    them): the search oracle that stays available when refurb's traverser no longer translates."""
+
+    def __init__(self):
+        self.mt = MethodTranslator("mypy/traverser.py", class_methods(MYPY / "traverser.py", "TraverserVisitor"))
+        self.accept = mypy_accept_table(MYPY)
+        self.kind_info = {}
+        for cls, mypy_m in self.accept.items():
+            spec = [x for x in (self.mt.flat(mypy_m) if mypy_m in self.mt.methods else [])
+                    if isinstance(x, Sel) and x.path.split(".")[-1] != "analyzed" and (cls, x.path) not in ALIAS_FIELDS]
+            self.kind_info[cls] = dict(full_spec=spec)
+
+
 class VisitorModel:
     def __init__(self, repo: Path):
         R = repo / "refurb" / "visitor"
